@@ -916,7 +916,15 @@ func (r *reader) push(obj Object) {
 		if create == nil {
 			break
 		}
-		obj = create(List{obj})
+		switch m := r.stack[len(r.stack)-1]; {
+		case m == quoteMarker && r.inQuotedData():
+			// 'x inside quoted data is the list (quote x), not a call of quote.
+			obj = List{Symbol("quote"), obj}
+		case m == sharpQuoteMarker && r.inQuotedData():
+			obj = List{Symbol("function"), obj}
+		default:
+			obj = create(List{obj})
+		}
 		r.stack[len(r.stack)-1] = nil
 		r.stack = r.stack[:len(r.stack)-1]
 	}
@@ -925,6 +933,28 @@ func (r *reader) push(obj Object) {
 	} else {
 		r.code = append(r.code, obj)
 	}
+}
+
+// inQuotedData returns true if what is being read is part of a quoted datum:
+// a quote marker is waiting further down on the stack or an enclosing list
+// starts with the symbol quote. Data inside a backquote is left as it is.
+func (r *reader) inQuotedData() bool {
+	for _, v := range r.stack[:len(r.stack)-1] {
+		switch v {
+		case backquoteMarker:
+			return false
+		case quoteMarker:
+			return true
+		}
+	}
+	for _, start := range r.starts {
+		if start+1 < len(r.stack)-1 {
+			if sym, ok := r.stack[start+1].(Symbol); ok && strings.EqualFold(string(sym), "quote") {
+				return true
+			}
+		}
+	}
+	return false
 }
 
 func (r *reader) closeList() {
